@@ -142,6 +142,8 @@ def revcomp_wrapper_rule(ctx, rule: str):
         fr.I.path.effects.append(("super-revcomp", kw))
         # T3: SeqRecord.reverse_complement builds its result with the subclass constructor
         out = ARec(True, rec.pieces, rec.ident, deriv=("revcomp", rec.deriv), ctor="SeqRecord.reverse_complement")
+        out.attrs["feature_coll"] = ACollection("lib-features", lambda: Term("lib-feature"))
+        fr.I.lib_result = out
         return out
 
     for mode in ("explicit", "defaults"):
@@ -163,6 +165,15 @@ def revcomp_wrapper_rule(ctx, rule: str):
                 out.append((rule + ".forwarding", "%s#%s" % (name, k), got == want and type(got) is type(want),
                             "parameter %s must be forwarded unchanged (%s): library receives %r, expected %r" % (k, mode, got, want)))
             v = o.value
+            altered = [e for e in o.path.effects if e[0] == "setattr" and ("lib-feature" in repr(e[1]) or e[1] is getattr(I, "lib_result", None) or e[1] is v)]
+            std = {"id", "name", "description"}
+            hidden = [e for e in altered if isinstance(e[1], ARec) and e[2] not in std]
+            out.append((rule + ".library-result-as-is", name, not [e for e in altered if e not in hidden],
+                        "the override rewrites what the library computed (%s): the reverse complement of a feature is then repo arithmetic outside the library's contract"
+                        % sorted({"%s.%s" % ("feature" if "lib-feature" in repr(e[1]) else "record", e[2]) for e in altered if e not in hidden})))
+            out.append((rule + ".no-hidden-state", name, not hidden,
+                        "the override keeps state on the records (%s): a later call can be answered from it instead of from the record's current content"
+                        % sorted({e[2] for e in hidden})))
             okc = isinstance(v, ARec) and v.circular and v.deriv and ("revcomp" in repr(v.deriv))
             out.append((rule + ".circular-type", name, okc, "the reverse complement must be circular-typed (the library result as is, or wrapped in type(self)/CircularRecord): got %r" % (v,)))
             return out
@@ -447,6 +458,12 @@ def transcription_rule(ctx, rule: str):
                 r.ob(rule + ".iupac", "DNARegex#%s~%s" % (code, case), got == want,
                      "pattern letter %s must %smatch nucleotide %s (IUPAC: %s = %s); transcribed as %r flags=%s"
                      % (code, "" if want else "not ", case, code, "".join(sorted(table[code])), pat, flags), fi.where())
+        # case symmetry on every letter a target may carry (the 15 IUPAC letters): C18
+        for letter in sorted(table):
+            up, lo = rx.fullmatch(letter) is not None, rx.fullmatch(letter.lower()) is not None
+            r.ob(rule + ".case-symmetry", "DNARegex#%s~%s/%s" % (code, letter, letter.lower()), up == lo,
+                 "pattern letter %s matches target letter %s but not %s (or the reverse): the spelling of a record changes whether it is accepted; transcribed as %r flags=%s"
+                 % (code, letter if up else letter.lower(), letter.lower() if up else letter, pat, flags), fi.where())
     r.floor(rule + ".iupac", 15 * 8)
     extra = set("ACGTN")
     note = [c for c in sorted(table) if compiled.get(c) and re.compile(*compiled[c]).fullmatch("N") and c not in ("N",)]
